@@ -4,6 +4,7 @@
 // mode: strict | alo<N> (AtLeastOnce{persist_every:N})       backend: default FD unless env WALRUS_REPLAY_MMAP=1
 // ops:  A:<t>:<size>            append one entry of <size> bytes            (expects Ok)
 //       B:<t>:<s1>,<s2>,..      batch append                                (expects Ok)
+//       E:<t>:<size>            append that must FAIL (and leave no trace)
 //       R:<t>                   consuming read_next                         (must return log[pos], pos+=1, or None iff pos==len)
 //       P:<t>                   peek read_next(checkpoint=false)            (must return log[pos] or None; changes nothing)
 //       X:<t>:<budget>:<chk>    stateful batch_read_for_topic(budget, chk, None)
@@ -68,6 +69,12 @@ fn run(name: &str, mode_s: &str, ops: &[&str], base: &PathBuf) -> Result<(), Str
                 let p = payload(f[1], t.log.len(), f[2].parse().unwrap());
                 if let Err(e) = w.append_for_topic(f[1], &p) { return fail(format!("append failed: {e}")); }
                 t.log.push(p);
+            }
+            "E" => {
+                // an append that must be rejected (e.g. larger than the 1 GiB block cap); it must leave no trace
+                let p = vec![0x5au8; f[2].parse().unwrap()];
+                if w.append_for_topic(f[1], &p).is_ok() { return fail("append unexpectedly succeeded".into()); }
+                topics.entry(f[1].to_string()).or_default();
             }
             "B" => {
                 let t = topics.entry(f[1].to_string()).or_default();
